@@ -18,7 +18,7 @@ _real = sys.stdout
 sys.stdout = _out
 print('| id | prop | change | needs | quick check of that property |')
 print('|----|------|--------|-------|------------------------------|')
-tot = rep = inp = und = 0
+tot = rep = inp = und = oth = 0
 for d in sorted(glob.glob(os.path.join(V, 'seeded', '*'))):
     if not os.path.isdir(d):
         continue
@@ -40,10 +40,16 @@ for d in sorted(glob.glob(os.path.join(V, 'seeded', '*'))):
             und += 1
             out = '**undecided** (exit 2)'
         else:
-            out = '**missed**'
+            others = [r2 for r2 in res.get(i, []) if r2['property'] != m['property'] and r2['rc'] == 1]
+            if others:
+                oth += 1
+                out = 'not by %s; reported by %s (which declares the changed function%s)' % (
+                    m['property'], ', '.join(r2['property'] for r2 in others), ', failing input replayed' if any(r2['with_input'] for r2 in others) else '')
+            else:
+                out = '**missed**'
     print('| %s | %s | %s | %s | %s |' % (i, m['property'], cut(m['summary'], 150), cut(m.get('needs', ''), 110), out))
 print()
-print('%d changes: %d reported (%d with a concrete failing input replayed on the real code), %d undecided, %d missed.' % (tot, rep, inp, und, tot - rep - und))
+print('%d changes: %d reported by the check of the property they were written against (%d with a concrete failing input replayed on the real code), %d reported only by another property\'s check, %d undecided, %d missed.' % (tot, rep, inp, oth, und, tot - rep - und - oth))
 
 sys.stdout = _real
 text = _out.getvalue()
